@@ -75,7 +75,7 @@ def run(ctx):
     tier = ctx.tier
     thorough = tier != 'quick'
     binary = ctx.go_build('tsmfile')
-    torn = 0 if thorough else 24
+    torn = 128 if thorough else 24      # max byte offsets per torn file (every offset when the append is shorter)
 
     if getattr(ctx, 'replay_path', None):
         with open(ctx.replay_path) as f:
@@ -91,7 +91,7 @@ def run(ctx):
     with ThreadPoolExecutor(max_workers=max(1, min(3, vlib.NCPU // 4))) as ex:
         f_mc = ex.submit(ctx.tlc, 'TSMFile', f'TSMFile.MC_{tier}.cfg', timeout=to, coverage=True, workers=w, tag='MC')
         f_gen = ex.submit(ctx.tlc, 'TSMFile', f'TSMFile.Gen_{tier}.cfg', timeout=to, workers=min(2, w), tag='Gen')
-        f_sim = ex.submit(tlc_sim, ctx, 'TSMFile', f'TSMFile.Sim_{tier}.cfg', (100 if not thorough else 1500) * 4 // w,
+        f_sim = ex.submit(tlc_sim, ctx, 'TSMFile', f'TSMFile.Sim_{tier}.cfg', (100 if not thorough else 300) * 4 // w,
                           60, w, 900 if thorough else 600, 'Sim')
         mc, gen, behaviours = f_mc.result(), f_gen.result(), f_sim.result()
 
@@ -122,6 +122,7 @@ def run(ctx):
     cases += [dict(b, mode='tomb') for b in behaviours]
     ctx.extra_cov['tombstone_behaviours'] = len(behaviours)
 
+    ctx.rng.shuffle(cases)           # spread the expensive behaviours evenly over the replay processes
     res, lines = ctx.replay(binary, cases, args={'torn': torn}, timeout=1700, case_timeout='300s')
     ctx.absorb(res, lines)
     ctx.extra_cov['comparisons_and_image_reopens'] = sum(int(r.get('evals') or 0) for r in res)
